@@ -22,7 +22,8 @@
 -/
 import CatVerif.Proofs.Args
 import CatVerif.Properties.C02
-import CatVerif.Proofs.Steps
+import CatVerif.Proofs.Steps.Collect
+import CatVerif.Proofs.Steps.Loops
 namespace Cat
 open St
 
